@@ -75,7 +75,7 @@ CLAIMED = {
                 "_adjust_offset with the minimiser replaced by the weighted least-squares offset scales the reconstruction by c when the data are "
                 "scaled by c; the retry loop around quad obtains the integral when quad first demands looser tolerances / more subdivisions "
                 "(IntegrationWarning); the objective handed to the offset minimiser is the weighted sum over all points; the pure-Python smoothers "
-                "(modified sinc, Whittaker-Henderson) leave symbolic linear data a+b*i unchanged (1e-9 relative).",
+                "(modified sinc, Whittaker-Henderson) leave symbolic linear data a+b*i unchanged (1e-9 relative). smooth.*.twice: the same filter twice in one process obeys the same law; window.custom: custom weights are the only weights used whatever window name accompanies them.",
         "design_ref": "DESIGN.md section 4, C11",
         "note": "PARTIAL: the Savitzky-Golay (scipy) and LOWESS (statsmodels) smoothers, _generate_weights, real splines/quadrature "
                 "and the 'few percent' clause for RC/RQ ladders are not claimed; exp/ln/rect are uninterpreted with the functional equations "
@@ -91,7 +91,7 @@ CLAIMED = {
                 "start value outside its limits is refused before the optimiser runs; among 3 methods (each succeeding or failing, symbolic "
                 "distinct chi-squared) the successful fit with the smallest pseudo chi-squared is returned, serially and in parallel; exactly the free "
                 "parameters of the circuit passed in are handed to the optimiser as varying (incl. a parameter fixed by default that was made free); "
-                "several methods in one process start from the same values.",
+                "several methods in one process start from the same values. fit.RR.multi.expr: a constraint expression with two methods in the calling process: the caller's constraint dictionary is untouched and every combination gets the same free and constrained parameters.",
         "design_ref": "DESIGN.md section 4, C12",
         "note": "PARTIAL: recovery of the generating parameters / vanishing chi-squared on noise-free data is optimiser behaviour and is not claimed; "
                 "lmfit is a contract stub; leastsq/boukamp only in the constraint obligations",
@@ -134,7 +134,7 @@ CLAIMED = {
                 "complex rational functions is decided by normalisation + z3. Also: array vs one-frequency-at-a-time evaluation, the three "
                 "dispatch branches (element, container, connection), Circuit(Series|Parallel|Element|list); construction routes (objects vs "
                 "CircuitBuilder vs serialise/parse) for a general transmission line with 5 sub-circuit shapes at a symbolic frequency. Exhaustive "
-                "for every nest of <=3 leaves, depth <=2, 2 (3) frequencies.",
+                "for every nest of <=3 leaves, depth <=2, 2 (3) frequencies. Round 3: the sub-circuit forms include short and open, and the object route also goes through Container.set_subcircuits (keyword and pair form).",
         "design_ref": "DESIGN.md section 4, C01",
         "note": "leaves opaque (element formulas are C02); a branch is open at all frequencies or none (mixed: result, if any, must obey the law; "
                 "only InfiniteImpedance may be raised); admittances that cancel exactly are cut away; floats as reals",
@@ -147,7 +147,7 @@ CLAIMED = {
                 "tanh, sinh, cosh); equality is decided by polynomial-identity normalisation and z3 (unsat of N1*D2-N2*D1 != 0). The "
                 "same is done for the general transmission line element in all 243 open/short/finite sub-circuit configurations "
                 "(_impedance vs _sympy; rejected by both or by neither) and for Series/Parallel nests over opaque leaves "
-                "(_impedance vs to_sympy). A sat answer is confirmed numerically on the plain library before it is reported.",
+                "(_impedance vs to_sympy). A sat answer is confirmed numerically on the plain library before it is reported. substituted.*: Circuit.to_sympy(substitute=True) of [X] / [R X], X labelled or not, leaves no variable but f; for R, C, L it equals the numeric impedance at a symbolic frequency.",
         "design_ref": "DESIGN.md section 4, C02",
         "note": "floats as reals; transcendental functions uninterpreted with listed axioms (equality modulo field arithmetic and congruence); "
                 "divisions by zero are cut away (counted); f->0 / f->inf limits (sympy.limit) are outside the claim",
@@ -176,7 +176,7 @@ CLAIMED = {
                 "(2) the real Parser.process over lazy token lists: every list of <=4 (6) tokens (16 token classes as solver variables decided "
                 "only when the parser inspects them, identifier texts from a vocabulary, numbers symbolic), plus 8 grammar-derived valid codes "
                 "cut after every prefix with 0..1 (2) positions replaced by arbitrary tokens: only ParsingError/ValueError escape and accepted "
-                "lists give well-formed, serialisable circuits. Counterexamples are rendered to text and replayed through parse_cdc.",
+                "lists give well-formed, serialisable circuits. Counterexamples are rendered to text and replayed through parse_cdc. empty: eight element-free texts; what is accepted serialises (plain and with the version header) to texts that are accepted again.",
         "design_ref": "DESIGN.md section 4, C04",
         "note": "numerals denote finite reals; ASCII classification only for symbolic characters; identifier vocabulary and label list are finite; "
                 "recursion depth and tokens longer than the bound are outside",
@@ -202,7 +202,7 @@ CLAIMED = {
                 "definitions with the private flag, remove_elements, reset in its three flag combinations, Resistor.set_default_values with a "
                 "symbolic value, reset_default_parameter_values), followed by reset() and a fresh registration, runs on the real process-global "
                 "registry; after every step the get_elements views, the built-in classes/definitions/defaults and the parser's acceptance of "
-                "registered vs unregistered symbols are compared with a dictionary model and the import-time snapshot.",
+                "registered vs unregistered symbols are compared with a dictionary model and the import-time snapshot. Histories include registering under the symbol of a private built-in (refused) and changing / resetting the defaults of a private built-in.",
         "design_ref": "DESIGN.md section 4, C15",
         "note": "user classes are small resistor-like elements; registry restored between paths by direct state restoration; re-registering a "
                 "built-in class under a new symbol is outside",
@@ -215,7 +215,7 @@ CLAIMED = {
                 "user constraint variables named like identifiers), to_parameters_dataframe and Circuit.to_sympy run on it; z3 decides whether "
                 "identifiers can fail to be a bijection / gap-free, and whether any value reported under a name can be anything but the value of "
                 "the element that name denotes (for to_sympy: evaluating the expression with each variable bound to its element's value must "
-                "give the numeric impedance).",
+                "give the numeric impedance). edit: identifiers, names, fit identifiers and expression variables after a circuit was looked up and then edited in place (same-type replacement, append, remove, insert).",
         "design_ref": "DESIGN.md section 4, C16",
         "note": "lmfit.Parameters/MinimizerResult and pandas.DataFrame replaced by name->value stand-ins; <=3 (4) elements; one known finding "
                 "(variable naming of equally labelled elements of different types)",
@@ -244,7 +244,7 @@ CLAIMED = {
                 "num_F_ext_evaluations (negative, zero, positive, too few) x limits x located minima, run with their numerical kernels stubbed: "
                 "(c) the real fit_circuit driver over 9 method x 8 weight spellings x num_procs with the worker stubbed; "
                 "an option combination is refused by TypeError/ValueError before the first kernel runs (or by the library's own error type) or "
-                "completes; the progress count never exceeds the precomputed total and every callback fraction lies within [0,1].",
+                "completes; the progress count never exceeds the precomputed total and every callback fraction lies within [0,1]. zhit.smooth.short.*: the real modified-sinc and Whittaker-Henderson smoothers complete on spectra with fewer points than their window.",
         "design_ref": "DESIGN.md section 4, C18",
         "note": "numerical kernels replaced by shape-correct stubs (failures inside real numerics are outside); the calculate_drt "
                 "drivers are not covered; option products are enumerated by solver-driven choices (bounded exhaustive), only the lemma is fully symbolic",
@@ -275,7 +275,7 @@ CLAIMED = {
                 "branches; on every path: no exception, balanced begin/end, exactly one to[...] component per element of the connections (a "
                 "container counts once), labelled as get_element_name names it. to_sympy (variables = one per parameter; only f after "
                 "substitution), to_latex and to_drawing are executed concretely on every explored shape. The shape part is bounded exhaustive "
-                "enumeration; the solver's share is branch feasibility and layout arithmetic.",
+                "enumeration; the solver's share is branch feasibility and layout arithmetic. open: nests in which one resistor of a parallel connection has R = inf (set through the API) and which can still be simulated.",
         "design_ref": "DESIGN.md section 4, C20",
         "note": "default parameter values; one known finding (single-item parallel connection built directly); rendering by LaTeX/matplotlib not checked",
     },
